@@ -8,7 +8,7 @@ static struct { MEnt e[4]; int n; int stopped; } M;
 static int NENT;
 static uint32_t MSPT = 1;     /* --opt slow=1: 100 Hz timer, i.e. 10 ms per tick; every time of the alphabet is then given in units of 10 ms */
 
-static uint8_t HB_NODE[4]; static const uint8_t HB_STATE[] = { 0, 4, 5, 127 };
+static uint8_t HB_NODE[4]; static uint8_t HB_STATE[] = { 0, 4, 5, 127 };     /* --opt odd=1: { 85h, FFh, 5, 127 } - state bytes CiA 301 does not define (reserved bit set): they are one "unknown" state, different from every defined one */
 static int WIDE4;    /* cfg 6: four entries with four distinct times (2, 3, 4, 6 ticks), alphabet reduced to the four heartbeats and the tick, so that
                         histories of ten events are explored: four consumer timers pending at once, a restarted one queued between any two others */
 static uint8_t WR_NODE[7];  static const uint16_t WR_TIME[] = { 0, 2, 3, 0, 2, 3, 0 };
@@ -20,6 +20,7 @@ static const char *cfg_name(int c) { static const char *const n[] = { "1 entry {
 static int build(int cfg)
 {
     if (mc_opt("edge", 0)) { NX = 127; NY = 126; NZ = 2; NW = 3; }
+    if (mc_opt("odd", 0)) { HB_STATE[0] = 0x85; HB_STATE[1] = 0xFF; }
     HB_NODE[0] = NX; HB_NODE[1] = NY; HB_NODE[2] = NZ; HB_NODE[3] = NW;
     WR_NODE[0] = WR_NODE[1] = WR_NODE[2] = NX; WR_NODE[3] = WR_NODE[4] = WR_NODE[5] = NY; WR_NODE[6] = 0;
     const struct { int n; uint8_t node[4]; uint16_t time[4]; } C[] = {
